@@ -77,7 +77,7 @@ def specSizes (signed : Bool) (vals : List Rat) (nword nfrac : Option Int) : Int
   let F0 : Int := match nfrac with
     | some f => f
     | none => (needFrac vals : Nat)
-  let ks := vals.map (fun v => truncR (v * (2 ^ F0.toNat : Nat)))
+  let ks := vals.map (fun v => truncR (if 0 ≤ F0 then v * (2 ^ F0.toNat : Nat) else v / (2 ^ (-F0).toNat : Nat)))
   let I : Int := max ((needBits ks : Nat) - F0) 0
   match nword with
   | none => let f := min (64 - s - I) F0; (min (f + I + s) 64, f)
